@@ -273,6 +273,9 @@ def run(tier, seed, vh, only_paths=None, mode=None):
     res["samples"] = [[{k: v for k, v in op.items() if v not in ("", False, 0, [], "-", "zero", "hi") and k != "sets"
                         or k == "op"} for op in p] for p in paths[:2]]
     res["wall_s"] = round(time.time() - t0, 1)
+    if tier != "quick":
+        for trace in traces:      # gigabytes in the thorough tier
+            os.remove(trace)
     if derr:
         raise Inconclusive("driver errors: " + "; ".join(derr[:3]))
     return res
